@@ -18,9 +18,17 @@ VERIF = tlc.VERIF
 
 # profile -> (quick histories, thorough histories, bundles quick, bundles thorough)
 PLAN = {
-  "general": (64, 1600, 16, 30),
-  "schema": (32, 800, 16, 30),
-  "records": (16, 400, 16, 30),
+  "general": (48, 1200, 16, 30),
+  "schema": (24, 600, 16, 30),
+  "records": (12, 300, 16, 30),
+}
+
+# the second corpus: metadata-heavy profiles (views, summary tables, two-way references, removals)
+PLAN_META = {
+  "views": (24, 500, 16, 30),
+  "summary": (32, 700, 16, 30),
+  "twoway": (24, 500, 16, 30),
+  "refs": (16, 300, 16, 30),
 }
 
 
@@ -79,7 +87,9 @@ def summarize_shard(path):
     evs = []
     for e in tr["events"]:
       evs.append({"k": e["k"], "tag": e["tag"], "of": e["of"], "uas": e["uas"],
-                  "ns": len(e["stored"]), "exc": e.get("exc", "")})
+                  "ns": len(e["stored"]), "exc": e.get("exc", ""),
+                  "n_summary": e.get("n_summary", 0), "n_twoway": e.get("n_twoway", 0),
+                  "onlyrm": e.get("onlyrm", False)})
     out.append({"tid": tr["tid"], "events": evs})
   return out
 
